@@ -460,6 +460,7 @@ nni_listener_start(nni_listener *l, int flags)
 	int            rv;
 	const nng_url *url;
 	char           us[NNG_MAXADDRSTRLEN];
+	bool           closed;
 	NNI_ARG_UNUSED(flags);
 
 	if (nni_atomic_flag_test_and_set(&l->l_started)) {
@@ -472,6 +473,16 @@ nni_listener_start(nni_listener *l, int flags)
 		nni_listener_bump_error(l, rv);
 		nni_atomic_flag_reset(&l->l_started);
 		return (rv);
+	}
+	// The listener (or its socket) may have been closed while we were
+	// binding.  The close has then already told the transport, which
+	// knew of no address at that time; tell it again.
+	nni_mtx_lock(&listeners_lk);
+	closed = l->l_closed;
+	nni_mtx_unlock(&listeners_lk);
+	if (closed) {
+		l->l_ops.l_close(l->l_data);
+		return (NNG_ECLOSED);
 	}
 	// collect the URL which may have changed (e.g. binding to port 0)
 	url = nni_listener_url(l);
